@@ -793,7 +793,7 @@ def main(run):
     proof_broken = not ok
     # ---------------- seeds and lexer correspondence
     seeds = load_seeds()
-    lin = lexer_inputs(rng, seeds, 100 if quick else 4000, 80 if quick else 3000)
+    lin = lexer_inputs(rng, seeds, 100 if quick else 600, 80 if quick else 400)
     lres = run_lexer_hook(lin)
     nbadspec = 0
     for i, (src, r) in enumerate(zip(lin, lres)):
@@ -830,8 +830,8 @@ def main(run):
     phase["lexer"] = round(time.time() - tph, 1); tph = time.time()
     # ---------------- explored part: malformed stream through the in-process driver
     lexed = [token_spans(s, r) if r and not r["p"] else [] for s, r in zip(seeds, run_lexer_hook(seeds))]
-    nm = 900 if quick else 30000
-    cases = gen_stream(rng, seeds, lexed, nm, nm // 5, 60 if quick else 600, nm // 8)
+    nm = 900 if quick else 7000
+    cases = gen_stream(rng, seeds, lexed, nm, nm // 5, 60 if quick else 300, nm // 8)
     for s in seeds[:6]:
         cases.append(("seed", {"main.fer": s}))
     cdir = os.path.join(common.VERIF, "corpus", "C13")        # minimised past failures, replayed on every run
@@ -880,7 +880,7 @@ def main(run):
         run.violation(key, what, replay_dict(k, small, mode, {"observed": (res[i]["panic"] or res[i]["out"])[:1500]}))
     phase["stream"] = round(time.time() - tph, 1); tph = time.time()
     # ---------------- a sample through the real CLI (exit status, stderr, wall time, output path)
-    ncli = 36 if quick else 400
+    ncli = 36 if quick else 150
     pick = [i for i in range(len(meta)) if meta[i][0] == "seed"] + rng.sample(range(len(meta)), ncli)
     jobs = [(j, meta[i][0], meta[i][1], ("native" if meta[i][0] == "seed" else rng.choice(["t", "native", "native", "wasm"])), i) for j, i in enumerate(pick)]
     jobs += [(len(jobs) + j, "qbe-probe", {"main.fer": p}, "native", None) for j, p in enumerate(QBE_PROBES)]
